@@ -214,7 +214,7 @@ fn large_graphs(thorough: bool) -> Vec<(String, SparseMatrix)> {
     // a hub of degree L whose adjacency list is in ascending order (position = index), and ONE further
     // node joining two chosen neighbours: exactly one cycle through the hub, between two chosen
     // positions of its list (positions 255 / 256 / 257 are where an 8-bit position tag would wrap)
-    for &l in if thorough { &[257usize, 300, 513, 65537][..] } else { &[257usize, 300][..] } {
+    for &l in if thorough { &[257usize, 300, 513, 1025][..] } else { &[257usize, 300][..] } {
         for (a, b) in [(0usize, 256usize), (1, 257), (255, 0), (255, 256), (254, 255), (17, 200), (3, 259)] {
             if a >= l || b >= l {
                 continue;
